@@ -110,9 +110,17 @@ def resolve_syntatic_sugar(a: ast.AST) -> ast.AST:
                     f"Too many arguments for dataclass {a.func.value} - {ast.unparse(node)}."
                 )
 
-            arg_values = a.args
+            # The call node is left as it was: it may be in the tree more than once.
+            arg_values = list(a.args)
             arg_names = [ast.Constant(value=n) for n in sig_arg_names[: len(arg_values)]]
             arg_lookup = {a.arg: a.value for a in a.keywords}
+            for name in sig_arg_names[: len(arg_values)]:
+                if name in arg_lookup:
+                    assert isinstance(a.func, ast.Constant)
+                    raise ValueError(
+                        f"Argument {name} is given twice for dataclass {a.func.value}"
+                        f" - {ast.unparse(node)}."
+                    )
             for name in sig_arg_names[len(arg_values) :]:
                 if name in arg_lookup:
                     arg_values.append(arg_lookup[name])
